@@ -394,7 +394,7 @@ func OneStringParam(params []any, v string) bool {
 //@   props C04 C13 C01
 //@   functional
 //@   requires len(right) >= 2
-//@   requires[params-nonempty] len(params) >= 1
+//@   requires[params-nonempty] len(RangeItems(right)) == 2 && (RangeLo(right) == "?" || RangeHi(right) == "?") ==> len(params) >= 1
 //@   ensures  result1 != nil ==> result0 == ""
 //@   ensures[two-items] (result1 != nil) == (len(RangeItems(right)) != 2)
 //@   ensures[value-independent] result1 == nil && (RangeLo(right) == "?" || RangeHi(right) == "?") ==> result0 == RangeParamText(left, RangeLo(right), RangeHi(right), RangeInclusive(right), IsNumberVal(params[0]))
